@@ -19,6 +19,8 @@ pub struct Analysis {
     pub ambiguous: Option<String>,
     /// a declaration at the top level of the expression (outside every inner scope)
     pub declares_at_top: bool,
+    /// names declared in some inner scope of the expression
+    pub declared_inner: BTreeSet<String>,
 }
 
 impl Analysis {
@@ -49,6 +51,8 @@ impl Analysis {
     fn declare(&mut self, n: &str) {
         if self.real_depth == 0 {
             self.declares_at_top = true;
+        } else {
+            self.declared_inner.insert(n.to_string());
         }
         self.scopes.last_mut().unwrap().insert(n.to_string());
     }
@@ -668,4 +672,12 @@ pub fn lambda_free_writes(e: &Ex) -> BTreeSet<String> {
         }
     });
     out
+}
+
+/// closure-local cells: names that a lambda in `e` writes without owning them and that are declared
+/// in an inner scope of `e` (a captured variable of an enclosing loop iteration or call). Name
+/// based and therefore conservative.
+pub fn hidden_cells(e: &Ex) -> BTreeSet<String> {
+    let a = Analysis::of(e);
+    lambda_free_writes(e).intersection(&a.declared_inner).cloned().collect()
 }
